@@ -149,6 +149,11 @@ func (v Version) Lifetime() (lo, hi Sec, kind string, unspecified bool) {
 	}
 	if exp := v.Header.Values("Expires"); len(exp) > 0 {
 		if len(exp) > 1 {
+			if _, ok := HTTPDate(exp[0]); !ok {
+				// the first line alone and the lines combined are both no HTTP-date: already
+				// expired under either reading (RFC 9111 §5.3), whatever a later line says
+				return 0, 0, "expires", false
+			}
 			return 0, 0, "expires", true
 		}
 		e, ok := HTTPDate(exp[0])
